@@ -155,7 +155,8 @@ fn get_text_edit_range_in_string(
         start_offset += 1;
     }
 
-    if text.ends_with('"') || text.ends_with('\'') {
+    // an unterminated string can consist of its opening quote only: that quote is not a closing one
+    if end_offset > start_offset && (text.ends_with('"') || text.ends_with('\'')) {
         end_offset -= 1;
     }
 
